@@ -43,6 +43,7 @@ M = {
     "M31-steps-incremented-after-user-step": ("mesa/model.py", "        self.steps += 1\n        _mesa_logger.info(f\"calling model.step for timestep {self.steps} \")\n        # Call the original user-defined step method\n        self._user_step(*args, **kwargs)\n",
                                               "        _mesa_logger.info(f\"calling model.step for timestep {self.steps} \")\n        # Call the original user-defined step method\n        self._user_step(*args, **kwargs)\n        self.steps += 1\n"),
     "M32-strong-ref-to-function": (EV, "            function = ref(function)", "            function = (lambda f: (lambda: f))(function)"),
+    "M33-viz-run-until-steps": ("mesa/visualization/solara_viz.py", "        else:\n            for _ in range(render_interval.value):\n                simulator.run_for(1)\n", "        else:\n            for _ in range(render_interval.value):\n                simulator.run_until(model.value.steps + 1)\n"),
     "M26-run-for-from-start": (SIM, "end_time = self.time + time_delta", "end_time = self.start_time + time_delta if self.time == self.start_time else self.time + time_delta + 0"),
 }
 
@@ -63,7 +64,7 @@ for name in sys.argv[1:]:
         print(name, "PATTERN NOT UNIQUE/FOUND", s.count(old))
         continue
     open(os.path.join(RW, path), "w").write(s.replace(old, new))
-    t = sh("PYTHONPATH=/tmp/rw/g14 /venv/bin/python -m pytest -q -p no:cacheprovider -x tests/test_devs.py 2>&1 | tail -1", cwd=RW)
+    t = sh("PYTHONPATH=/tmp/rw/g14 /venv/bin/python -m pytest -q -p no:cacheprovider -x tests/test_devs.py " + ("tests/test_solara_viz.py " if "viz" in name else "") + "2>&1 | tail -1", cwd=RW)
     res = [name, "tests:" + t.stdout.strip()[:40]]
     for pid in ("C14", "C15"):
         r = sh(f"VERIF_REPO=/tmp/rw/g14 ./check {pid} --tier quick 2>&1", cwd=VW)
